@@ -13,7 +13,7 @@ PROP = "C02"
 META = {
 
  "engine": "S-scheduler",
- "text": "Coq theorems (Props/C02.v) about the executable model of Timeline/Track (Sched/Model.v), over ALL histories - any interleaving of ticks with schedule/update/mute/unmute/unschedule/clear/nudge, calls made from action callbacks, streams that raise at any index, device faults, both tolerance modes (induction over the history, no bound): for every weight on (note, channel), pending releases + note-offs sent = note-ons sent, hence #note-ons - #note-offs = #pending entries >= 0 for every key after every history (no stuck note, no double release); a stop-when-done timeline stops only with nothing pending; inactive/muted/zero-or-None amplitude or gate voices emit nothing and every other voice emits exactly one note-on and registers one release due duration*gate later; each release happens on the first tick at or after its due time (never early, never late, never in the onset's tick). Tied to /repo on every run by a correspondence check of random lifecycle histories executed on the real Timeline with a recording device and on the model inside Coq, plus an independent trace oracle (FIFO pairing per (note, channel), exact release tick, empty sounding set at StopIteration and at the end).",
+ "text": "Coq theorems (Props/C02.v) about the executable model of Timeline/Track (Sched/Model.v), over ALL histories - any interleaving of ticks with schedule/update/mute/unmute/unschedule/clear/nudge, calls made from action callbacks, streams that raise at any index, device faults, both tolerance modes (induction over the history, no bound): for every weight on (note, channel), pending releases + note-offs sent = note-ons sent, hence #note-ons - #note-offs = #pending entries >= 0 for every key after every history (no stuck note, no double release); a stop-when-done timeline stops only with nothing pending; inactive/muted/zero-or-None amplitude or gate voices emit nothing and every other voice emits exactly one note-on and registers one release due duration*gate later; each release happens on the first tick at or after its due time (never early, never late, never in the onset's tick). Tied to /repo on every run by a correspondence check of random lifecycle histories executed on the real Timeline with a recording device and on the model inside Coq, plus an independent trace oracle (FIFO pairing per (note, channel), exact release tick, empty sounding set at StopIteration and at the end). Float layer: Props/C02Float.v proves that the note-off due test as the source writes it decides like the exact comparison at every resolution (also where tick times are decimal ties of round(., 8): 512 | ticks_per_beat); a stratum of 130 histories at resolutions 512..5120 with sounding lengths that are whole ticks written as inexact float products (non-dyadic duration, gate = (j/tpb)/duration) and onsets on many ticks is judged by the exact-fraction release tick and reports the tie defect repaired by 9bb39e5 if it returns.",
  "note": "Trusted: Coq kernel+VM; the Python harness. Modelled, not verified: float arithmetic of isobar (exact integer units in the model); events are taken already resolved (C03 covers resolution); a scalar amplitude of None (TypeError in isobar) and callbacks that unschedule tracks from inside a tick are outside the generated domain. On-time release is proved on the track's clock per scheduler cycle; that track and timeline clocks run in step is validated by the correspondence, not proved.",
 }
 
@@ -79,6 +79,61 @@ def oracle(sc, pit, r):
     return bad
 
 
+# ---- the float layer: releases that fall on a decimal tie of round(., 8) ---------------------------------------------
+# When 512 divides ticks_per_beat, tick times k/tpb with exactly nine decimals (k/512: every odd k) are ties of round(x, 8).
+# A sounding length duration*gate that is a whole number of ticks MATHEMATICALLY but an inexact float product puts the release
+# time a last bit beside such a tie; a due test that rounds both operands separately then says "not due" on the exact tick.
+TIE_TPBS = [512, 512, 1024, 1536, 2560, 2560, 5120]
+TIE_DURS = [F(11, 10), F(3, 10), F(7, 3), F(7, 10), F(9, 10), F(13, 10), F(1, 3), F(2, 3), F(1, 5), F(1, 10), F(6, 5), F(17, 10),
+            F(5, 7), F(3, 7), F(1, 9), F(21, 10), F(1, 6), F(4, 3)]
+
+
+def gen_tie_release(rng):
+    """1-3 tracks started (quantize = delay = 0) on arbitrary ticks of a timeline whose resolution is a multiple of 512; every
+    note has a non-dyadic duration d and the gate (j/tpb)/d, so that duration*gate = j ticks exactly in the rationals and an
+    inexact product in binary64.  Returns (scenario, Pitches) in the format of sched_gen.gen_lifecycle."""
+    tpb = rng.choice(TIE_TPBS)
+    tick = F(1, tpb)
+    pit = G.Pitches()
+    ops, done, end = [], 0, 0
+    starts = sorted(rng.choice([0, 0, 1, 2, 3, 5, rng.randint(0, 64), rng.randint(0, tpb), rng.randint(0, 2 * tpb)])
+                    for _ in range(rng.randint(1, 3)))
+    for chan, k0 in enumerate(starts):
+        n = rng.randint(2, 5)
+        items, N = [], F(0)
+        for i in range(n):
+            last = i == n - 1
+            d = rng.choice(TIE_DURS if last else [x for x in TIE_DURS if x * tpb <= 900] or [F(1, 10)])
+            r = rng.random()
+            j = (2 * rng.randint(0, 7) + 1 if r < 0.35 else 2 * rng.randint(0, 350) + 1 if r < 0.85 else rng.randint(1, 700))
+            if not last and r >= 0.35 and rng.random() < 0.5:
+                j = min(j, int(d * tpb))               # mostly released before the next event
+            nv = 1 if rng.random() < 0.8 else 2
+            base = pit.take(nv)
+            if base is None:
+                break
+            if rng.random() < 0.12 and not last:
+                items.append({"k": "note", "dur": d, "note": None, "amp": 64, "gate": [1, 1], "chan": chan})     # a rest shifts the onsets
+                N += d
+                continue
+            g = F(j, tpb) / d
+            amp = rng.choice([1, 64, 127])
+            notes = [base + v for v in range(nv)]
+            items.append({"k": "note", "dur": d, "note": notes if nv > 1 else base, "amp": amp,
+                          "gate": [g.numerator, g.denominator], "chan": chan})
+            for nt in notes:
+                pit.voices[(nt, chan)] = {"glen": F(j, tpb), "on": True, "vel": amp, "track": chan}
+            end = max(end, k0 + ceil(N / tick) + j)
+            N += d
+        if not items:
+            continue
+        if k0 > done:
+            ops.append(["tick", k0 - done]); done = k0
+        ops.append(G.sched_op(G.stream(items, False, rng.choice(["scripted", "psequence", "pdict"])), F(0), F(0), None, rng.random() < 0.5))
+    ops.append(["tick", max(1, end + 3 - done)])
+    return {"tpb": tpb, "config": {"stop_when_done": False, "ignore": False}, "callbacks": [], "ops": ops, "stratum": "tie-release"}, pit
+
+
 def check(run):
     rng = run.rng
     n = 2000 if run.tier == "quick" else 20000
@@ -86,12 +141,22 @@ def check(run):
     for _ in range(n):
         sc, pit = G.gen_lifecycle(rng, OPTS)
         scs.append(sc); pits.append(pit)
+    for _ in range(130 if run.tier == "quick" else 2600):
+        sc, pit = gen_tie_release(rng)
+        scs.append(sc); pits.append(pit)
     fin = [G.finalize(sc) for sc in scs]
     results = S.run_impl(run, fin, shards=14)
     flagged = set()
     for i, (sc, pit, fsc, r) in enumerate(zip(scs, pits, fin, results)):
         run.count()
         run.dist("tpb.%d" % sc["tpb"])
+        if sc.get("stratum"):
+            run.dist("stratum." + sc["stratum"])
+            if fsc["U"] * 2 > 10 ** 8:
+                raise CheckError("tie stratum: U = %d is too large for the exactness lemmas" % fsc["U"])
+            for v in pit.voices.values():
+                k = int(v["glen"] * sc["tpb"])
+                run.dist("tie.length." + ("odd-ticks" if k % 2 else "even-ticks"))
         for o in sc["ops"]:
             run.dist("op." + o[0])
         if "driver_error" in r:
